@@ -72,15 +72,17 @@ structure MoveSt where
   replace : List (ObjId × ObjId)
   bm : BmTable
 
+/-- `if let Some(object) = self.objects.remove(old) { objects.insert(new, object); replace.insert(old, new) }` -/
+def moveObj (st : MoveSt) (p : ObjId × ObjId) : MoveSt :=
+  match st.objects.get p.1 with
+  | some o => { st with objects := st.objects.remove p.1, tmp := st.tmp.insert p.2 o,
+                        replace := st.replace ++ [(p.1, p.2)] }
+  | none => st
+
 def moveStep (bookmarks : List Nat) (st : MoveSt) (p : ObjId × ObjId) : MoveSt :=
-  let old := p.1
-  let new := p.2
-  let st1 : MoveSt := match st.objects.get old with
-    | some o => { st with objects := st.objects.remove old, tmp := st.tmp.insert new o,
-                          replace := st.replace ++ [(old, new)] }
-    | none => st
-  if old ≠ new then
-    { st1 with bm := renumberBookmarks bookmarks st1.bm old new }
+  let st1 := moveObj st p
+  if p.1 ≠ p.2 then
+    { st1 with bm := renumberBookmarks bookmarks st1.bm p.1 p.2 }
   else st1
 
 /-- move all pairs, then re-insert the temporary map -/
@@ -106,17 +108,17 @@ def densePairs : List ObjId → Nat → List (ObjId × ObjId) → Option (List (
     let acc' := if id.1 ≠ newId then acc ++ [(id, (newId, id.2))] else acc
     if newId + 1 > U32_MAX then none else densePairs rest (newId + 1) acc'
 
-/-- `Document::renumber_objects_with` -/
-def renumber (d : Doc) (start : Nat) : Outcome Doc :=
-  -- page-order pass
-  let d1 : Doc :=
-    match pagePairs (pageIter d.trailer d.objects) with
-    | some pairs =>
-      let st := movePass d.bookmarks d.objects d.bmTable pairs
-      let r := traverse (renameAct st.replace) d.trailer st.objects
-      { d with trailer := r.1, objects := r.2.1, bmTable := st.bm }
-    | none => d
-  -- dense pass
+/-- first half of `renumber_objects_with`: put the pages in page order (only when they are not) -/
+def pagePass (d : Doc) : Doc :=
+  match pagePairs (pageIter d.trailer d.objects) with
+  | some pairs =>
+    let st := movePass d.bookmarks d.objects d.bmTable pairs
+    let r := traverse (renameAct st.replace) d.trailer st.objects
+    { d with trailer := r.1, objects := r.2.1, bmTable := st.bm }
+  | none => d
+
+/-- second half: consecutive numbers from `start`, `max_id = new_id - 1` -/
+def densePass (d1 : Doc) (start : Nat) : Outcome Doc :=
   match densePairs (sortBy idLe d1.objects.keys) start [] with
   | none => .panic "add"
   | some (pairs, newId) =>
@@ -124,5 +126,8 @@ def renumber (d : Doc) (start : Nat) : Outcome Doc :=
     let r := traverse (renameAct st.replace) d1.trailer st.objects
     if newId = 0 then .panic "sub"
     else .ok { d1 with trailer := r.1, objects := r.2.1, bmTable := st.bm, maxId := newId - 1 }
+
+/-- `Document::renumber_objects_with` -/
+def renumber (d : Doc) (start : Nat) : Outcome Doc := densePass (pagePass d) start
 
 end Lopdf
